@@ -58,8 +58,8 @@ func ruleFirstWaiterReleases(c *chk.Ctx) {
 	n := 0
 	for _, f := range pkgFuncs(c, c.M.Pkg) {
 		ir.Instrs(f, func(ins ssa.Instruction) {
-			u, ok := ins.(*ssa.UnOp)
-			if !ok || u.Op != token.ARROW || !u.CommaOk || !chk.LoadsField(u.X, c.M.RCh) {
+			u, commaOk, ok := slotRecvAt(c, ins)
+			if !ok || !commaOk {
 				return
 			}
 			n++
@@ -99,7 +99,7 @@ func ruleFirstWaiterReleases(c *chk.Ctx) {
 			if at != nil {
 				where = " (a path leaves at " + c.P.Pos(at.Pos()) + ")"
 			}
-			c.Check(found && okAll, "PAIR.release", f, "first waiter releases the observer", u.Pos(), "on the ok edge of the slot receive every path calls the Response's cancel function", "the waiter that settles a Response does not always call its cancel function"+where+": the request's context observer goroutine would outlive the request (and the client's Close)")
+			c.Check(found && okAll, "PAIR.release", f, "first waiter releases the observer", ins.Pos(), "on the ok edge of the slot receive every path calls the Response's cancel function", "the waiter that settles a Response does not always call its cancel function"+where+": the request's context observer goroutine would outlive the request (and the client's Close)")
 		})
 	}
 	if n == 0 {
@@ -288,7 +288,7 @@ func ruleCallbackTakeCompletes(c *chk.Ctx) {
 			}
 			n++
 			goal := func(i ssa.Instruction) bool {
-				if s, ok := i.(*ssa.Send); ok && chk.LoadsField(s.Chan, c.M.RCh) {
+				if _, _, ok := slotWriteAt(c, i); ok {
 					return true
 				}
 				ci, ok := i.(ssa.CallInstruction)
@@ -304,6 +304,70 @@ func ruleCallbackTakeCompletes(c *chk.Ctx) {
 			var at ssa.Instruction
 			if !done {
 				done, at = ir.PathQuery{Goal: c.P.LiftGoal(goal, 0)}.MustReach(del)
+			}
+			// the removal may sit in a method of a table type ("take", "drop", "forget") that
+			// leaves the completion to its callers: then every caller completes the entry on the
+			// edge on which the method reports that it removed one
+			if !done && f.Parent() == nil && !ir.Exported(f) && !c.P.UsedAsValue(f) && len(c.P.Callers(f)) > 0 {
+				allSites := true
+				for _, site := range c.P.Callers(f) {
+					call, isCall := site.Instr.(*ssa.Call)
+					if !isCall {
+						allSites = false
+						break
+					}
+					var starts []ssa.Instruction
+					if f.Signature.Results().Len() == 0 {
+						starts = append(starts, call)
+					} else if _, isTake := takeHelper(c, f, c.M.SCall, ownerLock(c, "server")); !isTake {
+						// the result must be the looked-up entry (or its presence flag) itself
+						allSites = false
+						break
+					} else {
+						// the edges on which the result says "removed": non-nil entry / true
+						for _, b := range site.Caller.Blocks {
+							iff, isIf := b.Instrs[len(b.Instrs)-1].(*ssa.If)
+							if !isIf {
+								continue
+							}
+							_ = iff
+							for _, succ := range b.Succs {
+								cd, has := ir.EdgeOwnCond(b, succ)
+								if !has {
+									continue
+								}
+								for _, n := range ir.NormConds([]ir.Cond{cd}) {
+									hit := n.V == ssa.Value(call) && n.Truth
+									if x, eq, isCmp := ir.NilCompare(n.V); isCmp && ir.NormCell(x) == ssa.Value(call) && eq != n.Truth {
+										hit = true
+									}
+									if hit && len(succ.Instrs) > 0 {
+										starts = append(starts, succ.Instrs[0])
+									}
+								}
+							}
+						}
+					}
+					if len(starts) == 0 {
+						allSites = false
+						at = call
+						break
+					}
+					for _, st := range starts {
+						if goal(st) {
+							continue
+						}
+						ok2, at2 := ir.PathQuery{Goal: c.P.LiftGoal(goal, 0)}.MustReach(st)
+						if !ok2 {
+							allSites = false
+							at = at2
+						}
+					}
+				}
+				if allSites {
+					done = true
+					at = nil
+				}
 			}
 			where := ""
 			if at != nil {
@@ -377,6 +441,85 @@ func ruleCallbackMarshalErrorReported(c *chk.Ctx) {
 					}
 				}
 			}
+			// (also through a variable that collects the result before the message is built)
+			if !storesR {
+				var flows func(v ssa.Value, depth int) bool
+				flows = func(v ssa.Value, depth int) bool {
+					v = ir.NormCell(v)
+					if ct, isCT := v.(*ssa.ChangeType); isCT {
+						v = ct.X
+					}
+					if ir.IsExtractOf(v, call, 0) {
+						return true
+					}
+					if phi, isPhi := v.(*ssa.Phi); isPhi && depth < 4 {
+						for _, e := range phi.Edges {
+							if flows(e, depth+1) {
+								return true
+							}
+						}
+					}
+					return false
+				}
+				ir.Instrs(f, func(i2 ssa.Instruction) {
+					if st, isSt := i2.(*ssa.Store); isSt && chk.IsField(st.Addr, c.M.JR) && flows(st.Val, 0) {
+						storesR = true
+					}
+				})
+			}
+			// or hands them, as one of its results, to callers that store that result there
+			// (a private "outcome" function returning the result bytes and the error to send)
+			errIdx := -1
+			if !storesR && !ir.Exported(f) && f.Signature.Results().Len() >= 2 {
+				resIdx := -1
+				for _, r := range ir.Returns(f) {
+					for i := range r.Results {
+						v := ir.ReturnResult(r, i)
+						if ct, isCT := v.(*ssa.ChangeType); isCT {
+							v = ct.X
+						}
+						if ir.IsExtractOf(ir.NormCell(v), call, 0) {
+							resIdx = i
+						}
+					}
+				}
+				sites := c.P.Callers(f)
+				if resIdx >= 0 && len(sites) > 0 && !c.P.UsedAsValue(f) {
+					allR, eIdx := true, -1
+					for _, s := range sites {
+						cv, isV := s.Instr.(*ssa.Call)
+						if !isV {
+							allR = false
+							continue
+						}
+						gotR := false
+						for _, r := range *cv.Referrers() {
+							e, isE := r.(*ssa.Extract)
+							if !isE {
+								continue
+							}
+							for _, r2 := range *e.Referrers() {
+								st, isSt := r2.(*ssa.Store)
+								if !isSt || st.Val != ssa.Value(e) {
+									continue
+								}
+								if e.Index == resIdx && chk.IsField(st.Addr, c.M.JR) {
+									gotR = true
+								}
+								if e.Index != resIdx && chk.IsField(st.Addr, c.M.JE) {
+									eIdx = e.Index
+								}
+							}
+						}
+						if !gotR {
+							allR = false
+						}
+					}
+					if allR && eIdx >= 0 {
+						storesR, errIdx = true, eIdx
+					}
+				}
+			}
 			if !storesR {
 				return
 			}
@@ -425,6 +568,11 @@ func ruleCallbackMarshalErrorReported(c *chk.Ctx) {
 				return
 			}
 			goal := func(i ssa.Instruction) bool {
+				if errIdx >= 0 {
+					// the outcome function: a return whose error result is not the nil constant
+					r, isR := i.(*ssa.Return)
+					return isR && errIdx < len(r.Results) && !ir.IsNilConst(ir.ReturnResult(r, errIdx))
+				}
 				st, ok := i.(*ssa.Store)
 				return ok && chk.IsField(st.Addr, c.M.JE) && !ir.IsNilConst(st.Val)
 			}
@@ -432,6 +580,52 @@ func ruleCallbackMarshalErrorReported(c *chk.Ctx) {
 			var at ssa.Instruction
 			if !ok2 {
 				ok2, at = ir.PathQuery{Goal: goal}.MustReach(fail.Instrs[0])
+			}
+			if !ok2 && errIdx < 0 {
+				// the error member may be chosen into a variable first and stored once, after
+				// the branches: follow each path from the Marshal with the values its phis take
+				okPaths, nFail := true, 0
+				complete := ir.WalkNilPaths(call.Block(), func(path []*ssa.BasicBlock, resolve func(ssa.Value) ssa.Value) bool {
+					b := path[len(path)-1]
+					if _, isRet := b.Instrs[len(b.Instrs)-1].(*ssa.Return); !isRet {
+						return true
+					}
+					failing := false
+					for i := 0; i+1 < len(path); i++ {
+						iff, isIf := path[i].Instrs[len(path[i].Instrs)-1].(*ssa.If)
+						if !isIf {
+							continue
+						}
+						x, eq, isCmp := ir.NilCompare(iff.Cond)
+						if !isCmp || !ir.IsExtractOf(ir.NormCell(resolve(x)), call, 1) {
+							continue
+						}
+						tookTrue := path[i].Succs[0] == path[i+1]
+						if eq != tookTrue {
+							failing = true
+						}
+					}
+					if !failing {
+						return false
+					}
+					nFail++
+					var last *ssa.Store
+					for _, pb := range path {
+						for _, ins := range pb.Instrs {
+							if st, isSt := ins.(*ssa.Store); isSt && chk.IsField(st.Addr, c.M.JE) {
+								last = st
+							}
+						}
+					}
+					if last == nil || ir.IsNilConst(resolve(last.Val)) {
+						okPaths = false
+						at = b.Instrs[len(b.Instrs)-1]
+					}
+					return false
+				})
+				if complete && okPaths && nFail > 0 {
+					ok2 = true
+				}
 			}
 			where := ""
 			if at != nil {
@@ -990,7 +1184,7 @@ func settleFuncs(c *chk.Ctx) []*ssa.Function {
 	for _, f := range pkgFuncs(c, c.M.Pkg) {
 		has := false
 		ir.Instrs(f, func(ins ssa.Instruction) {
-			if u, ok := ins.(*ssa.UnOp); ok && u.Op == token.ARROW && chk.LoadsField(u.X, c.M.RCh) {
+			if _, _, ok := slotRecvAt(c, ins); ok {
 				has = true
 			}
 		})
@@ -1753,10 +1947,9 @@ func ruleAccessorDefaults(c *chk.Ctx, rule string, pkgs ...*ssa.Package) {
 					fa, isFA := u.X.(*ssa.FieldAddr)
 					return isFA && ir.FieldVar(fa) == fv && fa.X == fr.fa.X
 				}
+				// (a value returned directly is judged where it is returned: the test may
+				// follow the load — `if v := s.F; v != nil { return v }`)
 				blk := fr.r.Block()
-				if in, isIns := fr.v.(ssa.Instruction); isIns {
-					blk = in.Block()
-				}
 				proved := true
 				alts := ir.CondAltsAt(blk)
 				if fr.alts != nil {
